@@ -119,8 +119,10 @@ static void shadow_write_json_file(const char *path, const ShadowFailure *fails,
 /* Forward declarations */
 static Value eval_expression(ASTNode *expr, Environment *env);
 static Value eval_statement(ASTNode *stmt, Environment *env);
-/* set when a block evaluated as an expression (match arm) executed a `return` */
-static bool g_block_expr_hit_return = false;
+/* the match node that eval_statement() is about to evaluate as a STATEMENT (a `return` executed in
+ * one of its arms leaves the function); consumed by that evaluation, so nested matches and matches
+ * in callees are judged on their own */
+static ASTNode *g_match_statement = NULL;
 static Value create_dyn_array(DynArray *arr);
 
 static DynArray* eval_dyn_array_binop(DynArray *a, DynArray *b, TokenType op);
@@ -4041,6 +4043,8 @@ static Value eval_expression(ASTNode *expr, Environment *env) {
 
         case AST_MATCH: {
             /* Evaluate match expression: match status { Ok(x) => 1, Error(e) => 0 } */
+            bool as_statement = (g_match_statement == expr);
+            g_match_statement = NULL;
             Value match_val = eval_expression(expr->as.match_expr.expr, env);
             
             if (match_val.type != VAL_UNION) {
@@ -4087,8 +4091,24 @@ static Value eval_expression(ASTNode *expr, Environment *env) {
                     }
                     env_define_var(env, binding, TYPE_STRUCT, false, binding_val);
                     
-                    /* Evaluate arm body */
-                    Value result = eval_expression(expr->as.match_expr.arm_bodies[i], env);
+                    /* Evaluate arm body.  A block arm that executes a `return`: in a match used as an
+                     * expression that is the arm's value, in a match statement it returns from the function */
+                    Value result;
+                    ASTNode *arm_body = expr->as.match_expr.arm_bodies[i];
+                    if (arm_body && arm_body->type == AST_BLOCK) {
+                        result = create_void();
+                        for (int si = 0; si < arm_body->as.block.count; si++) {
+                            result = eval_statement(arm_body->as.block.statements[si], env);
+                            if (result.is_return || result.is_break || result.is_continue) break;
+                        }
+                        if (!as_statement) {
+                            result.is_return = false;
+                            result.is_break = false;
+                            result.is_continue = false;
+                        }
+                    } else {
+                        result = eval_expression(arm_body, env);
+                    }
                     
                     /* Restore environment */
                     /* Note: Symbols added here will be leaked, but interpreter is short-lived */
@@ -4112,8 +4132,6 @@ static Value eval_expression(ASTNode *expr, Environment *env) {
                 result = eval_statement(expr->as.block.statements[i], env);
                 /* If statement returned a value, propagate it immediately */
                 if (result.is_return) {
-                    /* Remember it: a match used as a statement must return from the function */
-                    g_block_expr_hit_return = true;
                     /* Clear the return flag since we're handling it */
                     result.is_return = false;
                     result.is_break = false;
@@ -4549,12 +4567,9 @@ static Value eval_statement(ASTNode *stmt, Environment *env) {
         case AST_MATCH: {
             /* match used as a statement: a `return` executed inside an arm leaves the
              * enclosing function (as in compiled code), it is not just the arm's value */
-            g_block_expr_hit_return = false;
+            g_match_statement = stmt;
             Value match_result = eval_expression(stmt, env);
-            if (g_block_expr_hit_return) {
-                g_block_expr_hit_return = false;
-                match_result.is_return = true;
-            }
+            g_match_statement = NULL;
             return match_result;
         }
 
